@@ -35,6 +35,11 @@ Balanced(ts) == Bal(ts, 1, <<>>)
 \* juxtaposition: in none of TypeScript, Kotlin, Swift and Scala can a string literal stand directly next to another literal or an
 \* identifier (`""created-at""`, `"a" b`, `x "y"`); it is how a string that was quoted twice, or closed too early, shows in the
 \* token classes of a body that is otherwise only checked for balance. (Go is exempt: a struct tag follows a type name.)
+\* an operand of a logical operator is never empty: `&& ()`, `|| )`, `( &&` do not occur (a helper body assembled from an empty list of
+\* alternatives shows like that in a body that is otherwise only checked for balance)
+OperandOk(ts) == \A i \in 1..(Len(ts) - 1) :
+    /\ (ts[i] \in {"&&", "||"} => (ts[i + 1] \notin {")", "&&", "||"} /\ ~(i + 2 <= Len(ts) /\ ts[i + 1] = "(" /\ ts[i + 2] = ")")))
+    /\ (ts[i] = "(" => ts[i + 1] \notin {"&&", "||"})
 AdjOk(ts) == \A i \in 1..(Len(ts) - 1) :
     /\ ~(ts[i] = "str" /\ ts[i + 1] \in {"str", "id", "num"})
     /\ ~(ts[i] \in {"id", "num"} /\ ts[i + 1] = "str")
